@@ -529,7 +529,7 @@ class C19(C.Check):
 
     def gen_cases(self, ctx):
         rng = ctx.rng(19)
-        n_cl, n_re = (32, 8) if ctx.quick else (300, 60)
+        n_cl, n_re = (20, 5) if ctx.quick else (300, 60)
         cases = []
         for i in range(n_cl):
             mode = ["exact", "exact", "count", "drawn"][i % 4]
